@@ -500,6 +500,8 @@ package scipipe
 //@   effects exec-in-tempdir[C01,C13]: forall s string :: effExec[s] && !old(effExec)[s] ==> hasPrefix(s, "cd " + tmpDirOf(t) + " && ")
 //@   effects refuse-on-tempdir[C03]: statNotExist(old(fsEpoch), tmpDirOf(t))
 //@   effects skip-has-no-effect[C02]: old(!anyOutExists(t))
+//@   ensures returns-only-if-no-leftover-temp-dir[C03]: statNotExist(old(fsEpoch), tmpDirOf(t))
+//@   atsend never-done-with-leftover-temp-dir[C03]: statNotExist(old(fsEpoch), tmpDirOf(t))
 //@   ensures done-sent[C02,C05]: chanSentN(t.Done) == old(chanSentN(t.Done)) + 1
 //@   ensures slots-balanced[C06]: held(t.workflow) == old(held(t.workflow))
 //@   ensures skipped-or-finalized[C05,C09]: old(anyOutExists(t)) || (cmdSucceeded(t) && allRenamed(t))
